@@ -28,9 +28,10 @@ type stressCfg struct {
 	Nest        int   `json:"nest"`
 	Cycles      int   `json:"cycles"`
 	NoWait      bool  `json:"restart_without_wait"` // controller calls Shutdown(); Start() without ShutdownComplete.Wait() in between
-	Watchers    bool  `json:"watchers"`             // third parties parked on Queue / PendingTasksCounter waits before any Submit
-	DoubleStart bool  `json:"double_start"`         // every restart is done by two concurrent Start callers
-	AllBusy     bool  `json:"all_busy"`             // pool 0: every worker is held in a task until the controller has entered its first Shutdown; the tasks then call back into the pool
+	PanicOpt    bool  `json:"panic_opt"`
+	Watchers    bool  `json:"watchers"`     // third parties parked on Queue / PendingTasksCounter waits before any Submit
+	DoubleStart bool  `json:"double_start"` // every restart is done by two concurrent Start callers
+	AllBusy     bool  `json:"all_busy"`     // pool 0: every worker is held in a task until the controller has entered its first Shutdown; the tasks then call back into the pool
 }
 
 func genStress(seed int64, run int, race bool) stressCfg {
@@ -48,6 +49,7 @@ func genStress(seed int64, run int, race bool) stressCfg {
 	c.Nest = rng.Intn(3)
 	c.Cycles = rng.Intn(4)
 	c.NoWait = rng.Intn(4) == 0
+	c.PanicOpt = rng.Intn(3) == 0
 	c.Watchers = rng.Intn(3) == 0
 	c.DoubleStart = rng.Intn(3) == 0
 	if c.AllBusy = rng.Intn(3) == 0; c.AllBusy {
@@ -75,6 +77,7 @@ type stressResult struct {
 	Stuck             string    `json:"stuck,omitempty"`
 	GrpWaits          int64     `json:"group_waits_returned"`
 	Blind             string    `json:"blind,omitempty"`
+	Recovered         int64     `json:"recovered_submit_panics"`
 	AllBusyAtShutdown bool      `json:"all_workers_busy_when_shutdown_was_called"`
 }
 
@@ -119,7 +122,7 @@ func runStress(cfg stressCfg) (res stressResult) {
 			if i%2 == 1 {
 				g = sub
 			}
-			opts := []options.Option[workerpool.WorkerPool]{workerpool.WithCancelPendingTasksOnShutdown(cfg.Cancel)}
+			opts := []options.Option[workerpool.WorkerPool]{workerpool.WithCancelPendingTasksOnShutdown(cfg.Cancel), workerpool.WithPanicOnSubmitAfterShutdown(cfg.PanicOpt)}
 			if cfg.Workers[i] > 0 {
 				opts = append(opts, workerpool.WithWorkerCount(cfg.Workers[i]))
 			}
@@ -128,7 +131,7 @@ func runStress(cfg stressCfg) (res stressResult) {
 		}
 	} else {
 		for i := 0; i < cfg.Pools; i++ {
-			opts := []options.Option[workerpool.WorkerPool]{workerpool.WithCancelPendingTasksOnShutdown(cfg.Cancel)}
+			opts := []options.Option[workerpool.WorkerPool]{workerpool.WithCancelPendingTasksOnShutdown(cfg.Cancel), workerpool.WithPanicOnSubmitAfterShutdown(cfg.PanicOpt)}
 			if cfg.Workers[i] > 0 {
 				opts = append(opts, workerpool.WithWorkerCount(cfg.Workers[i]))
 			}
@@ -166,6 +169,7 @@ func runStress(cfg stressCfg) (res stressResult) {
 	var next, submitCalls, notRunning atomic.Int64
 	var overlap atomic.Bool
 
+	var recovered atomic.Int64
 	var submit func(rng *rand.Rand, depth int)
 	submit = func(rng *rand.Rand, depth int) {
 		id := next.Add(1) - 1
@@ -180,6 +184,11 @@ func runStress(cfg stressCfg) (res stressResult) {
 		p := pools[pi]
 		submitCalls.Add(1)
 		c0 := now()
+		defer func() {
+			if r := recover(); r != nil {
+				recovered.Add(1) // rejected Submit with the panic option: the caller carries on
+			}
+		}()
 		p.pool.Submit(func() {
 			t.start.Store(now())
 			t.runs.Add(1)
@@ -469,6 +478,7 @@ func runStress(cfg stressCfg) (res stressResult) {
 	res.Rejected = notRunning.Load()
 	res.Overlap = overlap.Load()
 	res.GrpWaits = grpWaits.Load()
+	res.Recovered = recovered.Load()
 	res.AllBusyAtShutdown = allBusyAtShutdown.Load()
 	for i := range res.Hits {
 		res.Hits[i] = jit.hits[i].Load()
